@@ -126,7 +126,7 @@ func drawH01(t *rapid.T) h01Case {
 			Prefix:  rapid.IntRange(0, maxPrefix).Draw(t, l+"prefix"),
 			V6:      !c.Focus && rapid.IntRange(0, 4).Draw(t, l+"v6") == 0,
 			PathID:  rapid.IntRange(1, 2).Draw(t, l+"pathid"),
-			Variant: rapid.IntRange(0, 6).Draw(t, l+"variant"),
+			Variant: rapid.IntRange(0, 8).Draw(t, l+"variant"),
 			N:       rapid.IntRange(2, 5).Draw(t, l+"n"),
 		}
 		c.Ops = append(c.Ops, op)
@@ -214,6 +214,13 @@ func h01Attrs(p *rsPeer, v6 bool, variant int, tag uint32) rsAttrs {
 		}
 		if variant == 6 {
 			a.ASPath = []rsSeg{{T: 2, AS: []uint32{100}}, {T: 1, AS: []uint32{65002, 65010}}}
+		}
+		if variant == 7 {
+			a.Originator = rsRouterID // reflected back to its originator: not usable (RFC 4456 section 8)
+		}
+		if variant == 8 {
+			a.Originator = "10.9.9.9" // reflected by the peer, originated elsewhere
+			a.Cluster = []string{"10.8.8.8"}
 		}
 		a.LocalPref = int64(100 + 10*(variant%3))
 	}
